@@ -220,7 +220,7 @@ def run_batch(engine: Engine, tier: str, batch_seed: int, jobs: int, n_override:
         scen["engine"] = engine.name
         scen.setdefault("index", f"extra-{j}")
         res = safe_execute(engine, scen)
-        _account(agg, scen, res, keep_sample=False)
+        _account(agg, scen, res, keep_sample=(j < 1))
     n_first = min(n, keep_digests)
     if jobs <= 1 or n < 32:
         part = _worker_chunk((batch_seed, tier, 0, n, n_first))
